@@ -834,18 +834,18 @@ Qed.
 
 Local Close Scope Z_scope.
 
-Lemma strip_left_id : forall s, (forall c, In c s -> is_space_char c = false) -> strip_left s = s.
+Lemma strip_left_id : forall s, (forall c, In c s -> is_pyspace c = false) -> strip_left s = s.
 Proof. destruct s; simpl; intros H; auto. rewrite H; auto. Qed.
 
-Lemma strip_id : forall s, (forall c, In c s -> is_space_char c = false) -> strip s = s.
+Lemma strip_id : forall s, (forall c, In c s -> is_pyspace c = false) -> strip s = s.
 Proof.
   intros s H. unfold strip. rewrite (strip_left_id s H). rewrite strip_left_id.
   - apply rev_involutive.
   - intros c Hc. apply in_rev in Hc. auto.
 Qed.
 
-Lemma not_space_ge33 : forall c, (33 <= c)%N -> is_space_char c = false.
-Proof. intros. unfold is_space_char. rewrite !in_range_false by lia. reflexivity. Qed.
+Lemma not_space_ge33 : forall c, (33 <= c)%N -> is_pyspace c = false.
+Proof. intros. unfold is_pyspace. rewrite in_range_false by lia. simpl. apply N.eqb_neq. lia. Qed.
 
 Theorem signed_integer_value : forall s, ref_signed_integer s = true -> py_int 10 s = Some (int_value s).
 Proof.
@@ -853,7 +853,7 @@ Proof.
   destruct (signed_integer_shape s H) as (sg & ds & -> & Hsg & Hne & Hd).
   assert (Dig : forall c, In c ds -> (48 <= c /\ c <= 57)%N).
   { intros c Hin. rewrite forallb_forall in Hd. apply Hd in Hin. apply in_range_iff. exact Hin. }
-  assert (NS : forall c, In c (sg ++ ds) -> is_space_char c = false).
+  assert (NS : forall c, In c (sg ++ ds) -> is_pyspace c = false).
   { intros c Hin. apply not_space_ge33. apply in_app_or in Hin. destruct Hin as [Hin | Hin].
     - destruct Hsg as [-> | [-> | ->]]; simpl in Hin; intuition; subst; lia.
     - apply Dig in Hin. lia. }
@@ -879,7 +879,7 @@ Proof.
   { intros c Hin. rewrite forallb_forall in Hd. apply Hd in Hin. unfold is_hex in Hin.
     apply orb_true_iff in Hin. destruct Hin as [Hin | Hin]; [apply orb_true_iff in Hin; destruct Hin as [Hin | Hin]|];
       apply in_range_iff in Hin; lia. }
-  assert (NS : forall c, In c s -> is_space_char c = false).
+  assert (NS : forall c, In c s -> is_pyspace c = false).
   { intros c Hin. apply not_space_ge33. apply Hx in Hin. lia. }
   unfold py_int. rewrite Hc, (strip_id _ NS). change (Z.of_nat 16) with 16%Z.
   destruct s as [|d s']; [congruence|].
